@@ -732,6 +732,32 @@ def _history_job(job):
                 if got != want_table[fkey] and len(bad) < 5:
                     bad.append(("view-not-independent", "history %s: tabulating view %d (%s %s) gives %s, the hand-deleted file gives %s" % (
                         describe(), ev[1], filt[ev[1]]["mode"], [SPL[x] for x in filt[ev[1]]["S"]], got[0] if got[0] != "ok" else "a different table", want_table[fkey][0])))
+    # ---- the caller's collection object (Views.tla: arg, GrowArg, one-shot iterators): a view keeps the species it was created
+    # with, whatever the caller does to the object it passed and however often the view is read
+    extra_labels = [SPL[x] for x in sorted(SPL)]
+    for pv, v in enumerate(pool):
+        fkey = json.dumps(v, sort_keys=True)
+        for kind in ("list-grown", "iterator", "generator", "set-cleared"):
+            labels = [SPL[x] for x in v["S"]]
+            coll = {"list-grown": list(labels), "iterator": iter(list(labels)), "generator": (x for x in list(labels)), "set-cleared": set(labels)}[kind]
+            cp = ConfigParser(io.StringIO(text))
+            view = FilteredConfigParser(cp, include=coll) if v["mode"] == "include" else FilteredConfigParser(cp, exclude=coll)
+            if kind == "list-grown":          # the views of a loop built from one growing list
+                for lab in extra_labels:
+                    if lab not in coll:
+                        coll.append(lab)
+                FilteredConfigParser(cp, include=coll) if v["mode"] == "include" else FilteredConfigParser(cp, exclude=coll)
+            elif kind == "set-cleared":
+                coll.clear()
+            for rep in (1, 2):
+                for lst in ("pair", "embed", "dens"):
+                    attr = {"pair": "pair", "embed": "eam_embed", "dens": "eam_density_fs" if doc["fs"] else "eam_density"}[lst]
+                    got = [_sp_tuple(p, doc["fs"], lst) for p in getattr(view, attr)]
+                    want = [_want_tuple(e) for e in by[fkey]["filtered"][lst]]
+                    n += 1
+                    if got != want and len(bad) < 5:
+                        bad.append(("view-keeps-callers-object", "view created with %s=%s passed as %s: read %d of %s gives %s, the file with the entries deleted has %s" % (
+                            v["mode"], labels, kind, rep, lst, got, want)))
     return dict(bad=bad, n=n)
 
 
@@ -934,6 +960,9 @@ def main_c13(tier, seed):
                 run.machinery("TLC: %s violated on Views_thorough\n%s" % (r4.violated, r4.stdout[-1200:]))
             else:
                 run.add_tlc("Views_thorough", r4)
+        r5 = tlc.run("Views", "Views_aliased.cfg", timeout=600)
+        if r5.violated != "ReadIsFilter":
+            run.machinery("anti-vacuity: Views_aliased.cfg (the view keeps the caller's collection object) should violate ReadIsFilter, TLC says %r" % (r5.violated,))
         r2 = tlc.run("Views", "Views_shared.cfg", timeout=600)
         run.notes["unrepaired_model_violates"] = r2.violated
         if r2.violated != "ReadIsFilter":
